@@ -99,18 +99,19 @@ FnArity(fn) == CASE fn = "displacement" -> 2 [] fn = "distance" -> 2 [] fn = "an
 \* the displacements a function forms, as <<from, to>> argument positions
 BondPairs(fn) == CASE fn = "displacement" -> {<<1, 2>>} [] fn = "distance" -> {<<1, 2>>}
                    [] fn = "angle" -> {<<1, 2>>, <<3, 2>>} [] fn = "dihedral" -> {<<1, 2>>, <<2, 3>>, <<3, 4>>}
-\* textbook value on the positions p (one per argument), bc = <<>> or <<BoxCtx(B)>>
-FnValueP(fn, p, bc) ==
-  CASE fn = "displacement" -> DisplacementP(p[1], p[2], bc)
-    [] fn = "distance" -> Norm2(DisplacementP(p[1], p[2], bc))
-    [] fn = "angle" -> AngleOf(DisplacementP(p[1], p[2], bc), DisplacementP(p[3], p[2], bc))
-    [] fn = "dihedral" -> DihedralOf(DisplacementP(p[1], p[2], bc), DisplacementP(p[2], p[3], bc), DisplacementP(p[3], p[4], bc))
-\* the value is defined (no zero-length vector, no collinear triple)
-FnDomP(fn, p, bc) ==
-  CASE fn = "angle" -> DisplacementP(p[1], p[2], bc) # Zero3 /\ DisplacementP(p[3], p[2], bc) # Zero3
+\* textbook value on the positions p (one per argument), bc = <<>> or <<BoxCtx(B)>>, and whether it
+\* is defined (no zero-length vector, no collinear triple): <<value, defined>>
+FnEvalP(fn, p, bc) ==
+  CASE fn = "displacement" -> <<DisplacementP(p[1], p[2], bc), TRUE>>
+    [] fn = "distance" -> <<Norm2(DisplacementP(p[1], p[2], bc)), TRUE>>
+    [] fn = "angle" -> LET v1 == DisplacementP(p[1], p[2], bc)  v2 == DisplacementP(p[3], p[2], bc)
+                       IN <<AngleOf(v1, v2), v1 # Zero3 /\ v2 # Zero3>>
     [] fn = "dihedral" -> LET b1 == DisplacementP(p[1], p[2], bc)  b2 == DisplacementP(p[2], p[3], bc)  b3 == DisplacementP(p[3], p[4], bc)
-                          IN Cross(b1, b2) # Zero3 /\ Cross(b2, b3) # Zero3
-    [] OTHER -> TRUE
+                          IN <<DihedralOf(b1, b2, b3), Cross(b1, b2) # Zero3 /\ Cross(b2, b3) # Zero3>>
+FnValueP(fn, p, bc) == FnEvalP(fn, p, bc)[1]
+ASSUME FnEvalP("angle", <<<<1, 0, 0>>, <<0, 0, 0>>, <<0, 2, 0>>>>, <<>>) = <<Angle(<<1, 0, 0>>, <<0, 0, 0>>, <<0, 2, 0>>, <<>>), TRUE>>
+ASSUME FnEvalP("dihedral", <<<<1, 0, 0>>, <<0, 0, 0>>, <<0, 2, 0>>, <<0, 2, 3>>>>, <<>>)
+         = <<Dihedral(<<1, 0, 0>>, <<0, 0, 0>>, <<0, 2, 0>>, <<0, 2, 3>>, <<>>), Dom_Dihedral(<<1, 0, 0>>, <<0, 0, 0>>, <<0, 2, 0>>, <<0, 2, 3>>, <<>>)>>
 (* the periodic value is specified: every displacement the function forms has a unique minimum
    image inside the property's range (ties and the range beyond half the box height are
    unspecified).  Orthogonal box: the minimum image is unique iff no fractional component of the
@@ -127,7 +128,7 @@ PairSpecifiedP(d, bx) ==
 FnSpecifiedP(fn, p, bc) ==
   bc = <<>> \/ \A pr \in BondPairs(fn) : PairSpecifiedP(VSub(p[pr[2]], p[pr[1]]), bc[1])
 \* entry = <<value, specified, defined>>
-EntryOf(fn, p, bc) == <<FnValueP(fn, p, bc), FnSpecifiedP(fn, p, bc), FnDomP(fn, p, bc)>>
+EntryOf(fn, p, bc) == LET e == FnEvalP(fn, p, bc) IN <<e[1], FnSpecifiedP(fn, p, bc), e[2]>>
 \* the result of fn(ops[1], .., ops[k], box = ba) as [model][atom] (a result of rank 2 has one
 \* model, of rank 1 one model and one atom)
 BroadcastWith(E(_, _), ops, ba) ==
@@ -136,7 +137,7 @@ BroadcastWith(E(_, _), ops, ba) ==
       E([j \in DOMAIN ops |-> OperandAt(ops[j], mi, ai)], bcs[mi])]]
 Broadcast(fn, ops, ba) == BroadcastWith(LAMBDA p, bc : EntryOf(fn, p, bc), ops, ba)
 \* the values and the "defined" flags only
-BroadcastValues(fn, ops, ba) == BroadcastWith(LAMBDA p, bc : <<FnValueP(fn, p, bc), FnDomP(fn, p, bc)>>, ops, ba)
+BroadcastValues(fn, ops, ba) == BroadcastWith(LAMBDA p, bc : FnEvalP(fn, p, bc), ops, ba)
 
 (* implementation-shaped: displacement() decides the order of the subtraction by the
    dimensionality of the operands ("an array can be only subtracted by an array with less
